@@ -39,6 +39,14 @@ func (e *Env) Pick(q, t int) int {
 	return q
 }
 
+// PickD is Pick for durations.
+func (e *Env) PickD(q, t time.Duration) time.Duration {
+	if e.Thorough() {
+		return t
+	}
+	return q
+}
+
 // Rand returns a PRNG derived from the seed and a stream label.
 func (e *Env) Rand(stream int64) *rand.Rand {
 	return rand.New(rand.NewSource(e.Seed*1_000_003 + stream*7919 + int64(e.Batch)*104729))
